@@ -467,6 +467,21 @@ def run(ctx):
     kinds = ["sched", "sched", "sched", "releasable", "notify", "notify", "ready", "resolve", "topo", "dfs", "flags"]
     triples = [rand_case(rng, kinds) for _ in range(n)]
     triples += [sane_case(rng) for _ in range(n // 4)]
+    # is_ready_to_run of the joins: parents in mixed states (complete / cancelled / still alive)
+    for _ in range(25 if quick else 400):
+        a, flags = cond_dag(rng)
+        t = gen_tasks(rng, a, flags, "any")
+        par = parents_of(a)
+        for j in [x for x in key_order(a) if t[x][5] and par[x]]:
+            t2 = {k2: list(v2) for k2, v2 in t.items()}
+            t2[j][0] = rng.choice([3, 3, 5, 1])
+            if t2[j][0] == 3:
+                t2[j][7] = 5
+            for p_ in par[j]:
+                t2[p_][0] = rng.choice([7, 7, 8, 8, 6, 4, 2, 1])
+                if t2[p_][0] == 8:
+                    t2[p_][4] = 0
+            triples.append((a, t2, ["ready", j]))
     # every switch combination x several lookaheads x policies on the same graph
     for _ in range(4 if quick else 60):
         a, t, _op = rand_case(rng, ["flags"])
